@@ -1,0 +1,11 @@
+//go:build verif
+
+package cache
+
+// This file is only built with the "verif" build tag. It exposes the cache
+// key derivation to the external verification harness.
+
+import "github.com/miekg/dns"
+
+// VerifGetMsgKey returns the cache key of q ("" when q bypasses the cache).
+func VerifGetMsgKey(q *dns.Msg) string { return string([]byte(getMsgKey(q))) }
